@@ -2,7 +2,10 @@
 EXTENDS Publish, Json
 P == << "alpn=h2", "port=8443" >>
 R(nm, pg, ps) == [name |-> nm, page |-> pg, params |-> ps]
-ParamLists == { <<>>, <<"alpn=h2">>, <<"key65400=a  b", "ech=old", "alpn=h2">>, <<"alpn=h2", "ech=C1x">>, <<"no-default-alpn", "alpn=h3", "ech=old">>, <<"alpn=h3", "no-default-alpn">>, <<"alpn=h2", "ech=old">>, <<"ech=old", "alpn=h2">>, <<"ech=C1">>, <<"alpn=h2", "ech=C1", "port=8443">> }
+ParamLists == { <<>>, <<"alpn=h2">>, <<"key65400=a  b", "ech=old", "alpn=h2">>, <<"alpn=h2", "ech=C1x">>, <<"no-default-alpn", "alpn=h3", "ech=old">>, <<"alpn=h3", "no-default-alpn">>, <<"alpn=h2", "ech=old">>, <<"ech=old", "alpn=h2">>, <<"ech=C1">>, <<"alpn=h2", "ech=C1", "port=8443">>,
+                \* a value with two ech entries, the current list first and a stale one last (the last one is what a reader of the
+                \* value ends up with): not "already current"
+                <<"ech=C1", "alpn=h2", "ech=old">> }
 ParamLists2 == { <<>>, <<"alpn=h2">>, <<"ech=old", "port=8443">> }
 RecSetsAll == { << R("a", 1, pa), R("b", 3, pb), R("c", 2, <<"alpn=h3", "ech=old", "no-default-alpn">>) >> : pa \in ParamLists, pb \in ParamLists2 }
               \cup { << R("a", 1, pa) >> : pa \in ParamLists } \cup { <<>> }
@@ -15,6 +18,7 @@ FailAll == { NoFail, [kind |-> "zone", n |-> 1], [kind |-> "page", n |-> 1], [ki
 RecSetsSmall == { << R("a", 1, <<"alpn=h2", "ech=old">>), R("b", 3, <<"ech=old", "port=8443">>), R("c", 2, <<"alpn=h3", "ech=old">>) >>,
                   << R("a", 1, <<"ech=C1">>), R("b", 3, <<"alpn=h2">>), R("c", 2, <<"alpn=h3", "ech=old">>) >>,
                   << R("a", 1, <<>>) >>,
+                  << R("a", 1, <<"ech=C1", "alpn=h2", "ech=old">>), R("b", 3, <<"alpn=h2">>), R("c", 2, <<"ech=C2", "ech=C1x">>) >>,
                   << R("a", 1, <<"key65400=a  b", "ech=old", "alpn=h2">>), R("b", 3, <<"alpn=h2">>), R("c", 2, <<"alpn=h3", "ech=old">>) >>,
                   \* a record without any parameter on the last page (same position as a parameter-rich one on the page before)
                   << R("a", 1, <<"alpn=h2">>), R("b", 3, <<>>), R("c", 2, <<"alpn=h3", "ech=old", "no-default-alpn">>) >> }
